@@ -16,24 +16,12 @@ import (
 	"time"
 
 	metav1 "k8s.io/apimachinery/pkg/apis/meta/v1"
-	"k8s.io/apimachinery/pkg/apis/meta/v1/unstructured"
-	"k8s.io/apimachinery/pkg/runtime/schema"
 
 	kubeeventsmanager "github.com/flant/shell-operator/pkg/kube_events_manager"
 	schedulemanager "github.com/flant/shell-operator/pkg/schedule_manager"
 	"github.com/flant/shell-operator/pkg/zzverif/vres"
 	"github.com/flant/shell-operator/pkg/zzverif/vrt"
 )
-
-var cmGVR = schema.GroupVersionResource{Version: "v1", Resource: "configmaps"}
-
-func cmObj(ns, name string, ver int) *unstructured.Unstructured {
-	return &unstructured.Unstructured{Object: map[string]any{
-		"apiVersion": "v1", "kind": "ConfigMap",
-		"metadata": map[string]any{"name": name, "namespace": ns},
-		"data":     map[string]any{"v": fmt.Sprint(ver)},
-	}}
-}
 
 const c03hookA = `configVersion: v1
 kubernetes:
